@@ -111,6 +111,29 @@ def driverStep (d : DSt) (ws : List String) : DSt × String :=
     | some t => if !asciiOnly t then ({ d with dead := some (S "non-ascii") }, "unmodelled " ++ enc "non-ascii")
                 else apply d { base := baseOps "" "", join := fun _ u => u, fix := id, loose := d.loose } (.data t)
     | none => (d, "bad-op")
+  | ["decode", ty, t] =>
+    -- the loose back end's decode_entities as a function of its own (tied separately; inside runs it stays a recorded oracle)
+    match decChars ty, decChars t with
+    | some ty, some t => (d, "s:" ++ encChars (looseDecode ty t))
+    | _, _ => (d, "bad-op")
+  | ["cref", r] =>
+    -- stage 6 (loose back end): `handle_charref(ref)`; characters beyond ASCII leave the driver's domain (the text repairs of `pop()` are the identity on ASCII only)
+    match decChars r with
+    | some r =>
+      (match crefText r with
+       | some t => if !asciiOnly t then ({ d with dead := some (S "non-ascii") }, "unmodelled " ++ enc "non-ascii")
+                   else apply d { base := baseOps "" "", join := fun _ u => u, fix := id, loose := d.loose } (.cref r)
+       | none => apply d { base := baseOps "" "", join := fun _ u => u, fix := id, loose := d.loose } (.cref r))
+    | none => (d, "bad-op")
+  | ["eref", r, found, text] =>
+    -- `handle_entityref(ref)`; <found> <text>: what `self.entities.get(ref)` answered in the real run
+    match decChars r, decChars text with
+    | some r, some text =>
+      let o : Ops := { base := baseOps "" "", join := fun _ u => u, fix := id, loose := d.loose,
+                       entities := fun x => if x == r && found == "1" then some text else none }
+      if !asciiOnly (erefText o r) then ({ d with dead := some (S "non-ascii") }, "unmodelled " ++ enc "non-ascii")
+      else apply d o (.eref r)
+    | _, _ => (d, "bad-op")
   | ["ns", p, u] =>
     match decOpt p, decChars u with
     | some p, some u => apply d { base := baseOps "" "", join := fun _ u => u, fix := id, loose := d.loose } (.ns (p.map String.toList) u)
